@@ -120,7 +120,9 @@ theorem cg_rank_ok : rankOK JanetModel.Gen.Depth.cg JanetModel.Gen.Depth.rank = 
 theorem cg_counters_balanced : balanced JanetModel.Gen.Depth.balancePaths = true := by decide +kernel
 
 /-- ★ per-run obligation: marshal / unmarshal charge their depth argument (`flags + 1`) on every call cycle - the
-    graph of NON-charging calls among the (un)marshal functions is acyclic (rank certificate, no guards). -/
+    graph of NON-charging calls among the (un)marshal functions is acyclic (rank certificate, no guards).  The depth is
+    followed through the `flags` field of the context handed to abstract-type hooks; a call whose depth operand is not
+    derived from the caller's own depth (the count restarts) is a self-loop of the caller in this graph. -/
 theorem cg_depth_arg_charged :
     rankOK JanetModel.Gen.Depth.depthArgCg JanetModel.Gen.Depth.depthArgRank = true := by decide +kernel
 
